@@ -44,6 +44,13 @@ theorem base16_roundtrip (b : Bytes) (hb : ∀ x ∈ b, x < 256) : RoundTrip b (
   rw [Utf8.lossy_ascii _ (Base16.enc_ascii b hb), Base16.dec_enc b hb]
   rfl
 
+/-- the decoder accepts upper-case digits as well: `decode_base16(upper(encode_base16(b))) = Ok(b)`. -/
+theorem base16_roundtrip_upper (b : Bytes) (hb : ∀ x ∈ b, x < 256) :
+    RoundTrip b (resOfOption (Base16.decode (Base16.encUpper b))) := by
+  unfold RoundTrip Base16.decode
+  rw [Utf8.lossy_ascii _ (Base16.encUpper_ascii b hb), Base16.dec_encUpper b hb]
+  rfl
+
 /-! ### (2) base64 -/
 
 def standardName : Bytes := [115, 116, 97, 110, 100, 97, 114, 100]
@@ -256,5 +263,128 @@ theorem charset_encode_panics_iff (P : Charset.Prim) (t label : Bytes) :
   split
   · simp_all
   · split <;> simp_all
+
+/-! ### (9) punycode -/
+
+/-- a label the `validate: false` pair handles faithfully: already lower-case, not itself starting
+    with "xn--", and (when not ASCII) encodable by the raw punycode primitive. -/
+def PunyLabelOK (P : Punycode.Prim) (l : Bytes) : Prop :=
+  P.lower l = l ∧ Punycode.prefix_.isPrefixOf l = false ∧
+    (Punycode.isAscii l = false → ∃ e, P.punyEnc l = some e)
+
+theorem puny_encLabel_props (P : Punycode.Prim) (l : Bytes) (hl : PunyLabelOK P l)
+    (hdot : Punycode.dot ∉ l) :
+    Punycode.isAscii (Punycode.encLabel P l) = true ∧ Punycode.dot ∉ Punycode.encLabel P l ∧
+    Punycode.decLabel P (Punycode.encLabel P l) = l ∧
+    (Punycode.prefix_.isPrefixOf (Punycode.encLabel P l) = false → Punycode.encLabel P l = l) := by
+  obtain ⟨hlow, hpre, henc⟩ := hl
+  cases ha : Punycode.isAscii l with
+  | true =>
+    have he : Punycode.encLabel P l = l := by simp [Punycode.encLabel, ha, hlow]
+    rw [he]
+    refine ⟨ha, hdot, ?_, fun _ => rfl⟩
+    simp [Punycode.decLabel, hpre]
+  | false =>
+    obtain ⟨e, he⟩ := henc ha
+    obtain ⟨hdec, hea, hed⟩ := P.rtPuny l e he
+    have hE : Punycode.encLabel P l = Punycode.prefix_ ++ e := by
+      simp [Punycode.encLabel, ha, hpre, hlow, he]
+    rw [hE]
+    refine ⟨?_, ?_, ?_, ?_⟩
+    · simp only [Punycode.isAscii, List.all_append, Bool.and_eq_true] at hea ⊢
+      exact ⟨by decide, hea⟩
+    · intro h
+      rcases List.mem_append.mp h with h | h
+      · exact Punycode.dot_not_in_prefix h
+      · exact hed h
+    · simp [Punycode.decLabel, Punycode.prefix_isPrefixOf_append, Punycode.drop_prefix_append, hdec]
+    · intro h
+      rw [Punycode.prefix_isPrefixOf_append] at h
+      cases h
+
+/-- `validate: false` on both sides: every domain (UTF-8 text) whose labels are `PunyLabelOK`. -/
+theorem punycode_roundtrip_novalidate (P : Punycode.Prim) (d : Bytes) (hd : Utf8.lossy d = d)
+    (hl : ∀ l ∈ Punycode.splitDot d, PunyLabelOK P l) :
+    RoundTrip d (andThen (Punycode.encode P d false) (fun e => Punycode.decode P e false)) := by
+  have hnodot := Punycode.splitDot_no_dot d
+  have hprops := fun l hm => puny_encLabel_props P l (hl l hm) (hnodot l hm)
+  -- decoding a text whose labels are all fixed by `decLabel`
+  have decode_fixed : ∀ (x : Bytes), Utf8.lossy x = x →
+      (Punycode.splitDot x).map (Punycode.decLabel P) = Punycode.splitDot x →
+      Punycode.decode P x false = .ok x := by
+    intro x hx hfix
+    simp only [Punycode.decode, hx, Bool.false_eq_true, ↓reduceIte]
+    split
+    · rfl
+    · rw [hfix, Punycode.joinDot_splitDot]
+  unfold RoundTrip
+  simp only [Punycode.encode, hd, Bool.false_eq_true, ↓reduceIte]
+  split
+  · -- only `a-z0-9.`: returned unchanged
+    simp only [andThen]
+    apply decode_fixed d hd
+    apply Punycode.map_id_of_mem
+    intro l hm
+    simp [Punycode.decLabel, (hl l hm).2.1]
+  · simp only [andThen]
+    -- the encoded text
+    have hascii : Punycode.isAscii (Punycode.joinDot ((Punycode.splitDot d).map (Punycode.encLabel P))) = true := by
+      apply Punycode.isAscii_joinDot
+      intro l hm
+      obtain ⟨l0, hm0, rfl⟩ := List.mem_map.mp hm
+      exact (hprops l0 hm0).1
+    have hlossy := Utf8.lossy_ascii _ ((Punycode.isAscii_iff _).mp hascii)
+    have hsplit : Punycode.splitDot (Punycode.joinDot ((Punycode.splitDot d).map (Punycode.encLabel P))) =
+        (Punycode.splitDot d).map (Punycode.encLabel P) := by
+      apply Punycode.splitDot_joinDot
+      · simpa using Punycode.splitDot_ne_nil d
+      · intro l hm
+        obtain ⟨l0, hm0, rfl⟩ := List.mem_map.mp hm
+        exact (hprops l0 hm0).2.1
+    simp only [Punycode.decode, hlossy, Bool.false_eq_true, ↓reduceIte]
+    split
+    · -- no "xn--" anywhere in the output: no label was changed
+      rename_i hno
+      have hno' : Punycode.hasPrefixAnywhere
+          (Punycode.joinDot ((Punycode.splitDot d).map (Punycode.encLabel P))) = false := by
+        simpa using hno
+      have hall := Punycode.no_prefix_of_join _ hno'
+      have hid : (Punycode.splitDot d).map (Punycode.encLabel P) = Punycode.splitDot d := by
+        apply Punycode.map_id_of_mem
+        intro l hm
+        exact (hprops l hm).2.2.2 (hall _ (List.mem_map_of_mem hm))
+      rw [hid, Punycode.joinDot_splitDot]
+    · rw [hsplit, List.map_map]
+      have hid : (Punycode.splitDot d).map (Punycode.decLabel P ∘ Punycode.encLabel P) = Punycode.splitDot d := by
+        apply Punycode.map_id_of_mem
+        intro l hm
+        exact (hprops l hm).2.2.1
+      rw [hid, Punycode.joinDot_splitDot]
+
+/-- `validate: true` on both sides: every domain valid in the primitive's sense. -/
+theorem punycode_roundtrip_validate (P : Punycode.Prim) (d : Bytes) (hd : Utf8.lossy d = d)
+    (hv : P.validDomain d) :
+    RoundTrip d (andThen (Punycode.encode P d true) (fun e => Punycode.decode P e true)) := by
+  obtain ⟨a, ha, hascii, hu⟩ := P.rtIdna d hv
+  have hlossy := Utf8.lossy_ascii a ((Punycode.isAscii_iff a).mp hascii)
+  unfold RoundTrip
+  simp only [Punycode.encode, hd, ↓reduceIte, ha, andThen, Punycode.decode, hlossy]
+  split
+  · rename_i hno
+    have hno' : Punycode.hasPrefixAnywhere a = false := by simpa using hno
+    rw [P.asciiFixed d a hv ha hno']
+  · simp [hu]
+
+/-- mixed combinations, under the compatibility law "on this domain ToASCII is label-wise raw
+    punycode" (i.e. both encoders produce the same text): the decoder with either `validate`
+    inverts the encoder with the other. -/
+theorem punycode_roundtrip_mixed (P : Punycode.Prim) (d : Bytes) (hd : Utf8.lossy d = d)
+    (hv : P.validDomain d) (hl : ∀ l ∈ Punycode.splitDot d, PunyLabelOK P l)
+    (hcompat : Punycode.encode P d true = Punycode.encode P d false) :
+    RoundTrip d (andThen (Punycode.encode P d true) (fun e => Punycode.decode P e false)) ∧
+    RoundTrip d (andThen (Punycode.encode P d false) (fun e => Punycode.decode P e true)) := by
+  constructor
+  · rw [hcompat]; exact punycode_roundtrip_novalidate P d hd hl
+  · rw [← hcompat]; exact punycode_roundtrip_validate P d hd hv
 
 end C22
